@@ -81,6 +81,10 @@ Definition subset_bits (a b : list N) : bool :=        (* every bit of a is set 
   forallb (fun '(x, y) => N.land x y =? x) (combine a b).
 Definition ranges_disjoint (s1 e1 s2 e2 : N) : bool := (e1 <=? s1) || (e2 <=? s2) || (e1 <=? s2) || (e2 <=? s1).
 
+(* accounts the harness leaves out of every observation (sim.rs, op_keys) *)
+Definition is_program_key (k : key) : bool :=
+  match k with KSystem | KToken | KAtaProg | KLoader | KRd | KPassport | KSwapMock | KRogue _ => true | _ => false end.
+
 (* ================= C11 ================= *)
 Definition c11_account (k : key) (a : acct) : clauses :=
   match dist_of a with
@@ -109,7 +113,10 @@ Definition c11_step (V : view) (ob : obs) : clauses :=
       match dist_of (vget V dk) with
       | Some (d0, _) =>
           if key_eqb rk dk then [] else
-          chk (lamports (post_of V post rk) - lamports (vget V rk) =? d_relay d0) rk 3 (d_relay d0) ++
+          (* the harness does not observe program accounts (the model has none): a program id named as relayer is paid,
+             but its balance is not in the trace; the debit of the distribution (clause 4) is still checked *)
+          (if is_program_key rk then [] else
+           chk (lamports (post_of V post rk) - lamports (vget V rk) =? d_relay d0) rk 3 (d_relay d0)) ++
           chk (lamports (vget V dk) - lamports (post_of V post dk) =? d_relay d0) dk 4 (d_relay d0)
       | None => [] end
   | _ => [] end.
